@@ -68,6 +68,8 @@ var c20Faults = []c20Fault{
 	{"call with too few arguments", nil, "return two()", "incorrect args"},
 	{"failing native", []string{"k := 0 - 1 - n*0"}, "return len(strings.Repeat(\"x\", k))", "Repeat"},
 	{"negative shift count", []string{"a := 1", "k := 0 - 3"}, "return a << k", "negative shift"},
+	{"negative shift count in a compound assignment", []string{"a := 1", "k := 0 - 3 - n*0"}, "a <<= k", "negative shift"},
+	{"negative shift count in a right-shift assignment", []string{"a := n + 100", "k := 0 - 1"}, "a >>= k", "negative shift"},
 	{"implicitly repeated constant expression (goatlang evaluates constants at run time)", []string{"const (", "\tq0 = 100 / (2 - iota)"}, "\tq1", "divide by zero"},
 }
 
@@ -138,6 +140,7 @@ func c20Generate(seed int64, idx int) c20Case {
 		method           bool
 		inLib            bool
 		rec              int // recursion depth before calling the next one
+		spread           bool // takes a variadic tail and is called with a spread slice
 	}
 	chain := make([]fn, depth)
 	for i := range chain {
@@ -161,6 +164,8 @@ func c20Generate(seed int64, idx int) c20Case {
 		}
 		if i < depth-1 && rng.Chance(1, 8) {
 			f.rec = rng.Range(1, 4)
+		} else if i > 0 && rng.Chance(1, 5) {
+			f.spread = true
 		}
 	}
 	// library functions cannot call back into main: keep the tail of the chain in lib once entered
@@ -187,6 +192,9 @@ func c20Generate(seed int64, idx int) c20Case {
 		sig := fmt.Sprintf("func %s(n int) int {", f.name)
 		if f.method {
 			sig = fmt.Sprintf("func (t *T) %s(n int) int {", f.name)
+		}
+		if f.spread {
+			sig = strings.Replace(sig, "(n int)", "(n int, rest ...int)", 1)
 		}
 		if f.rec > 0 {
 			sig = fmt.Sprintf("func %s(n int, k int) int {", f.name)
@@ -263,6 +271,12 @@ func c20Generate(seed int64, idx int) c20Case {
 			}
 		}
 		arg := "n"
+		if next.spread {
+			// the next call spreads a slice; an ordinary call on another line comes right before it
+			g.emit(file, "\tsp := []int{n, 1}")
+			g.emit(file, "\tn = id(n)")
+			arg = "n, sp..."
+		}
 		callNext := callExpr(f, next, arg)
 		if next.rec > 0 {
 			callNext = strings.TrimSuffix(callNext, ")") + fmt.Sprintf(", %d)", next.rec)
@@ -478,7 +492,7 @@ func c20Decide(c c20Case) (string, map[string]string) {
 }
 
 func runC20(r *core.Run) {
-	r.SetRule("generated call chains of depth 1-30 (functions, methods, a second package, direct recursion of 1-4 extra frames) with the next call placed as a statement, in a := / return / arithmetic expression / argument of another call / if condition / for body / switch default / field store, and one of 18 run-time faults planted at a known line (inside a loop or branch one time in two) in statement shapes that trigger the peephole fusions; entered through Call, through a top-level Eval (also one that declares a type and a method ahead of the call) and from the initialiser of a package variable that follows a method declaration (outermost entry without a function name); one case in six with \\r\\n line endings; optimizer on and off. non-trivial = the fault produced an error with at least one call-chain entry; distinct by source")
+	r.SetRule("generated call chains of depth 1-30 (functions, methods, a second package, direct recursion of 1-4 extra frames, callees with a variadic tail called with a spread slice right after an ordinary call) with the next call placed as a statement, in a := / return / arithmetic expression / argument of another call / if condition / for body / switch default / field store, and one of 21 run-time faults planted at a known line (inside a loop or branch one time in two) in statement shapes that trigger the peephole fusions; entered through Call, through a top-level Eval (also one that declares a type and a method ahead of the call) and from the initialiser of a package variable that follows a method declaration (outermost entry without a function name); one case in six with \\r\\n line endings; optimizer on and off. non-trivial = the fault produced an error with at least one call-chain entry; distinct by source")
 	r.Assume("the generator knows every line: one statement per line, a call's arguments may start on the line after the callee (the call is expected on the callee's line); columns are not judged (the property speaks of lines)")
 	n := r.N(3000, 120000)
 	core.Parallel((n+49)/50, func(chunk int) {
